@@ -76,8 +76,14 @@ def main(have):
     w.present["/dev/sg0"] = True
     w.inode["/dev/sg0"] = 1
     sd.open = lambda *a, **k: (opened.append(a), w.open(*a, **k))[1]
-    sd.os = type("os", (), {"stat": staticmethod(w.stat)})
-    for dev, binding, clsname in (("/dev/sg0", "sgio", "SCSIDevice"), ("iscsi://127.0.0.1/iqn.t/0", "iscsi", "ISCSIDevice"), ("/tmp/file", None, None), ("tcp://x", None, None)):
+    from contracts.device import FakeOS
+
+    w.all_present = True
+    sd.os = FakeOS(w)
+    for dev, binding, clsname in (("/dev/sg0", "sgio", "SCSIDevice"), ("/dev/bsg/0:0:0:0", "sgio", "SCSIDevice"), ("/dev/disk/by-id/wwn-0x5000", "sgio", "SCSIDevice"),
+                                  ("/dev/", "sgio", "SCSIDevice"), ("iscsi://127.0.0.1/iqn.t/0", "iscsi", "ISCSIDevice"), ("iscsi://", "iscsi", "ISCSIDevice"),
+                                  ("/tmp/file", None, None), ("tcp://x", None, None), ("", None, None), ("/dev", None, None), ("dev/sg0", None, None),
+                                  ("ISCSI://x", None, None), (" /dev/sg0", None, None)):
         del w.trace[:]
         try:
             d = U.init_device(dev)
